@@ -124,7 +124,7 @@ META = {
         "original and of loaders obtained earlier; ConversionRetort histories; thorough: >128 hints to force LRU eviction. distinct = (history, probe, configuration); "
         "non-trivial = non-empty history (shared call-cache hits are counted by the cache monitor)",
         cases=(50, 1500), budget=(50, 420),
-        minimums={"quick": {"histories": 4000, "ordered_pairs": 4000, "history_cache_hits": 2000, "immutability_checks": 300, "conversion_histories": 100, "distinct_nontrivial": 4000}},
+        minimums={"quick": {"faults_injected": 300, "faulted_requests_that_died": 200, "histories": 4000, "ordered_pairs": 4000, "history_cache_hits": 2000, "immutability_checks": 300, "conversion_histories": 100, "distinct_nontrivial": 4000}},
         exhaustive={"quick": False, "thorough": False},
         assumptions=["outcome = type-strict value or (exception class, structural error signature)", "cache monitor wraps BuiltinMediator.cached_call from the harness; zero hits make the run inconclusive"],
     ),
